@@ -7,6 +7,7 @@
 //! Exit status: 0 the property held on everything explored (known findings
 //! included), 1 at least one unlisted violation, 2 harness or usage error.
 
+mod alloc_meter;
 mod c06;
 mod c07;
 mod c09;
@@ -23,6 +24,9 @@ mod rng;
 mod seams;
 
 use framework::*;
+
+#[global_allocator]
+static GLOBAL: alloc_meter::Meter = alloc_meter::Meter;
 use std::path::PathBuf;
 
 fn usage() -> ! {
